@@ -115,6 +115,18 @@ CLAIMED = {
    note="Trusted: Coq kernel; vac_tuple is hand-modelled from vacuum_btree and tied by SQL histories only; page reuse is C11.",
    technique="Coq proof (store-level simulation through the vacuum pass; coordinator snapshot lemmas) + differential correspondence with before/after and file-size oracles",
    design="7 (C13)"),
+ "C09": dict(
+   text="Props/C09.v: the persisted set of aborted transactions, after any history of aborts and VACUUM clean-ups, is read back at "
+        "open as exactly the ids aborted and not cleaned up - for ids below the bitmap bound regenerated from the source "
+        "(C09_outside_known, bit-level model of mark / is / clear proved to be a set), the list handed to the coordinator is that "
+        "set, and a snapshot listing a transaction as aborted reads none of its inserts and ignores its deletes; the full-strength "
+        "statement is refuted with the witness 'abort transaction 8192' (C09_aborted_set_refuted, recorded finding, replayed on "
+        "the code every run).  In the reference, flush and reopen are the identity anywhere in any history (C09_reference).  The "
+        "engine is tied on every run by histories with close/reopen under changing configurations (reads before = reads after; "
+        "fresh ids do not collide), overflow rows, VACUUM, more than 8192 transactions, and by the header facade stream.",
+   note="Trusted: Coq kernel; translator for bitmap constants and operation shapes; free list / catalog / counters only through SQL answers.",
+   technique="Coq proof (bit-level bitmap = set; refutation witness) + regenerated constants + differential correspondence (SQL reopen histories, header facade)",
+   design="7 (C09)"),
 }
 NOT_YET = "not claimed yet: model and proofs under construction in this session (see DESIGN.md section 10, build order)"
 
